@@ -399,6 +399,14 @@ def rotdpp_roles(prog: Program):
     sb = bind_call(sm, ["frequencies", "spectrum", "fcs", "bandwidth"])
     arr = sb.get("spectrum")
     if not isinstance(arr, ast.Name):
+        try:
+            av = R.value(arr, sm) if arr is not None else None
+        except AnalysisError:
+            av = None
+        if av is not None and any(getattr(getattr(a_, "func", None), "__name__", "") in ("percentile", "nanpercentile", "quantile", "median") for a_ in sp.preorder_traversal(av)):
+            problems.append(f"the percentile over the azimuths is taken on the raw spectra, before smoothing (the smoothing operator receives {str(av)[:120]}): "
+                            f"RotDpp is defined on the smoothed rotated spectra")
+            return problems, facts, b
         raise AnalysisError(f"{q}: the array handed to the smoothing operator is not a named array")
     alloc = R.value(arr, sm)
     nrows = None
